@@ -17,7 +17,7 @@ import time
 import warnings
 
 from vf.core import exc_key
-from vf.iodoubles import (CONN, EOF, DATA, WANT_READ, WOULDBLOCK, FakeSocket, FakeContext)
+from vf.iodoubles import (ERR, CONN, EOF, DATA, WANT_READ, WOULDBLOCK, FakeSocket, FakeContext)
 
 LEVEL = "exploration"
 RULE = ("operation sequences over {accept from A/B (repeats allowed), peer closes A, removeIx A/B, closeIx A, serviceAll} "
@@ -133,6 +133,10 @@ def _run_sequence(ctx, cls, tls, delay, seq):
             elif name == "removeIx":
                 if ca in m.live:
                     d = m.live.pop(ca)
+                    if id(d) in m.cut:
+                        # the peer is gone already: shutting its socket down fails (ENOTCONN), closing it must still happen
+                        d.script("shutdown", [ERR(errno.ENOTCONN)])
+                        ctx.hit("entries_removed_whose_shutdown_fails")
                     m.removed.append(d)
                     m.closed.add(id(d))
                 else:
@@ -140,6 +144,9 @@ def _run_sequence(ctx, cls, tls, delay, seq):
                 srv.removeIx(ca)
             elif name == "closeIx":
                 if ca in m.live:
+                    if id(m.live[ca]) in m.cut and id(m.live[ca]) not in m.closed:
+                        m.live[ca].script("shutdown", [ERR(errno.ENOTCONN)])
+                        ctx.hit("entries_removed_whose_shutdown_fails")
                     m.closed.add(id(m.live[ca]))
                 else:
                     expect_exc = ValueError
